@@ -718,11 +718,23 @@ class Exec:
                 return outs + [(sc.with_env(s.env), VBool(z3.BoolVal(is_all))) for sc in cur]
         if a is not None and not kw and len(args) == 1 and self.quantify_allany:
             # symbolic source: the result is DEFINED by a quantified formula over the iteration domain (element expression single-path)
-            it = self.symiter(s, a)
-            t = self.truth(it.elem)
+            if isinstance(a, VClosure) and isinstance(a.node, ast.GeneratorExp) and len(a.node.generators) == 1 and not a.node.generators[0].ifs and isinstance(a.node.generators[0].target, ast.Name):
+                # element expressions may fork (short-circuit and/or, nested any()/all()): the element's truth is the disjunction over its paths
+                g = a.node.generators[0]
+                r0 = self.eval(g.iter, s.with_env(a.env))
+                if len(r0) != 1: raise Unsupported('generator source forks')
+                it0 = self.symiter(r0[0][0], r0[0][1])
+                s2 = it0.st.set(g.target.id, it0.elem).assume(it0.dom); base = len(s2.pc)
+                parts = [z3.And(*(list(s3.pc[base:]) + [self.truth(v3)])) for s3, v3 in self.eval(a.node.elt, s2)]
+                t = z3.Or(*parts) if parts else z3.BoolVal(False)
+                it = SymIter(it0.var, it0.dom, None, it0.ordered, it0.lo, it0.st._r(env=s.env))
+            else:
+                it = self.symiter(s, a)
+                t = self.truth(it.elem)
             q = z3.ForAll([it.var], z3.Implies(it.dom, t)) if is_all else z3.Exists([it.var], z3.And(it.dom, t))
-            R = M.fresh('all' if is_all else 'any', z3.BoolSort())
-            return [(it.st._r(env=s.env).assume(R == q), VBool(R))]
+            # the value IS the quantified formula (no fresh name: a nested any()/all() inside a generator element must stay a function of
+            # the enclosing iteration variable)
+            return [(it.st._r(env=s.env), VBool(q))]
         return self.b_linear(s, args, kw, where)
     def b_all(self, s, args, kw, where): return self.b_allany(s, args, kw, where, True)
     def b_any(self, s, args, kw, where): return self.b_allany(s, args, kw, where, False)
